@@ -533,12 +533,13 @@ pub fn op_decr(args: &[&str]) -> String {
     let tree = BaoTree::new(data.len() as u64, bs);
     let ob0 = vec![0xAAu8; tree.outboard_size() as usize];
     let mut target = vec![fill; data.len()];
+    let mut rd: &[u8] = &stream;
     let (r, ob) = match fl {
-        "sync" => with_sync_store!(kind, root, tree, ob0, |o| sync::decode_ranges(&stream[..], &ranges, &mut target, &mut o)),
+        "sync" => with_sync_store!(kind, root, tree, ob0, |o| sync::decode_ranges(&mut rd, &ranges, &mut target, &mut o)),
         "fsm" => {
             let mut t = BytesMut::from(&target[..]);
             let res = with_fsm_store!(kind, root, tree, ob0, |o| block_on(fsm::decode_ranges(
-                &stream[..],
+                &mut rd,
                 ranges.clone(),
                 &mut t,
                 &mut o
@@ -548,16 +549,18 @@ pub fn op_decr(args: &[&str]) -> String {
         }
         _ => panic!("bad flavour"),
     };
+    let rest = rd.len();
     let term = match r {
         Ok(()) => "Done".to_string(),
         Err(e) => dec_err(&e),
     };
     format!(
-        "{} {} {} src={}",
+        "{} {} {} src={} rest={}",
         term,
         dig(&target),
         dig(&ob),
-        if digs.is_empty() { "-".into() } else { digs.join(";") }
+        if digs.is_empty() { "-".into() } else { digs.join(";") },
+        if term == "Done" { rest.to_string() } else { "_".into() }
     )
 }
 
